@@ -70,6 +70,29 @@ def _runs(cases, k, rnd):
     return runs
 
 
+def _gotest(ctx, pkgdirs, *a, **kw):
+    """ctx.gotest, but a crash of the test binary whose goroutine stack goes through keep-core's protocol code (below a
+    third-party frame such as tss-lib, which the engine's own culprit detection does not look through) is reported as a
+    violation: the node would crash on that behaviour."""
+    import re
+    try:
+        return ctx.gotest(*a, **kw)
+    except Exception as ex:
+        txt = str(ex)
+        if type(ex).__name__ != "Broken" or "panic:" not in txt:
+            raise
+        seg = txt[txt.index("panic:"):]
+        for m in re.finditer(r"^\s+(/\S+\.go):(\d+)", seg, re.M):
+            f = m.group(1)
+            if "zz_verif_" in f or "/verif/harness/" in f or "verifkit" in f:
+                break
+            if any(("/" + d + "/") in f for d in pkgdirs) and "_test.go" not in f:
+                ctx.violation("panic:" + f.split("/")[-1], "keep-core protocol code crashed the process while a specification behaviour "
+                              "was executed (%s:%s)" % (f, m.group(2)), {"output": seg[:3000]})
+                return None
+        raise
+
+
 def run(ctx):
     rnd = random.Random(ctx.seed)
     # 1. the hazard variant (registerSigner keeps the key-generation index) is refuted: the invariants bite
@@ -109,12 +132,13 @@ def run(ctx):
         sets = [[1, 2, 3], [2, 3, 4], [1, 3, 4]]
         inputs["keygenruns.ndjson"] = [{"n": 5, "h": 3, "quorum": 4, "excluded": excl, "operating": ops, "signerSets": sets}]
         tests = "^TestVerif_C08_(Pipeline|Sign|KeygenSign)$"
-    go = ctx.gotest(PKG, tests, ["c08_test.go"], inputs=inputs, extra_overlay=OVERLAY, label="c08",
+    go = _gotest(ctx, ["pkg/tecdsa/signing", "pkg/tecdsa/dkg", "pkg/tbtc", "pkg/protocol/state"], PKG, tests, ["c08_test.go"], inputs=inputs, extra_overlay=OVERLAY, label="c08",
                     env={"VERIF_SIGN_BUDGET_S": ctx.pick(420, 900), "VERIF_KEYGEN_BUDGET_S": 1500},
                     timeout=ctx.pick(1500, 5400))
-    ctx.absorb(go)
+    if go is not None:
+        ctx.absorb(go)
     want = {"pipeline", "sign"} | ({"keygensign"} if ctx.thorough else set())
-    if set(go.reports) != want and not ctx.violations:
+    if go is not None and set(go.reports) != want and not ctx.violations:
         ctx.broken("harness reports missing: %s" % sorted(go.reports))
     if not ctx.violations:
         h = ctx.extra.get("harness", {})
